@@ -1408,7 +1408,7 @@ func genC08Op(t *rapid.T, nc int, allowRace bool) C08Op {
 		var chain *C08Op
 		for i := 0; i < n; i++ {
 			p := genC08Op(t, nc, false)
-			for p.Op == "latest" || p.Op == "mine" || p.Op == "renew" || p.Op == "refresh-full" || p.Op == "refresh-partial" {
+			for p.Op == "latest" || p.Op == "mine" || p.Op == "minepast" || p.Op == "renew" || p.Op == "refresh-full" || p.Op == "refresh-partial" {
 				p = C08Op{Op: "fund", Dep: []int{rapid.IntRange(0, 2).Draw(t, "racct"), rapid.IntRange(0, 3).Draw(t, "ramt")}}
 			}
 			p.Corrupt, p.Race = "", chain
